@@ -4,7 +4,7 @@
    evaluates the specification (round-trip equality / literal value and
    range) on the implementation's output. *)
 From Coq Require Import List NArith ZArith Bool.
-From Dials Require Import Base.Outcome Base.Runes Text.Quote Text.Split Text.FlagHelpers Text.ParseDuration.
+From Dials Require Import Base.Outcome Base.Runes Text.Quote Text.Split Text.FlagHelpers Text.ParseDuration Text.Utf8.
 From Dials Require Export Text.ParseInt Text.ParseString.   (* constructors used by the cases files *)
 Import ListNotations.
 Open Scope N_scope.
@@ -104,16 +104,26 @@ Fixpoint pval_eqb (a b : pval) : bool :=
   | _, _ => false
   end.
 
-(* values that contain a raw-byte pseudo rune are compared by class only *)
-Definition has_raw (s : str) : bool := existsb (fun c => raw_byte_base <=? c) s.
+(* Values are compared after UTF-8 normalisation.  The harness prints what the bytes of the
+   implementation's strings decode to (invalid bytes as raw pseudo runes, Text/Utf8.v); a model
+   string whose raw bytes came from \xNN / octal escapes may contain neighbours that together
+   form a valid sequence, so it is encoded and decoded again before the comparison. *)
+Definition renorm (s : str) : str := utf8_decode (utf8_encode s).
+Fixpoint pval_norm (v : pval) : pval :=
+  match v with
+  | VStr s => VStr (renorm s)
+  | VList l => VList (map pval_norm l)
+  | VSet l => VSet (map renorm l)
+  | VMss m => VMss (map (fun kv : str * list str => (renorm (fst kv), map renorm (snd kv))) m)
+  | VMap m => VMap (map (fun kv : pval * pval => let (k, x) := kv in (pval_norm k, pval_norm x)) m)
+  | x => x
+  end.
+(* a duration whose float step the model does not determine: class only *)
 Fixpoint pval_raw (v : pval) : bool :=
   match v with
-  | VStr s => has_raw s
   | VOpaque => true
   | VList l => existsb pval_raw l
-  | VSet l => existsb has_raw l
-  | VMss m => existsb (fun kv => has_raw (fst kv) || existsb has_raw (snd kv)) m
-  | VMap m => existsb (fun kv => pval_raw (fst kv) || pval_raw (snd kv)) m
+  | VMap m => existsb (fun kv : pval * pval => let (k, x) := kv in pval_raw k || pval_raw x) m
   | _ => false
   end.
 Definition out_class_eqb {A B} (a : outcome A) (b : outcome B) : bool :=
@@ -186,11 +196,7 @@ Definition check (c : c15case) : N :=
       verdict (out_eqb str_eqb iu (Ok s)) (str_eqb iq mq && out_eqb str_eqb iu (unquote mq)) 0
   | UnquoteRaw s impl =>
       let model := unquote s in
-      match model with
-      | Ok v => if has_raw v then (if out_class_eqb impl model then 0 else 1)
-                else if out_eqb str_eqb impl model then 0 else if is_panic impl then 3 else 1
-      | _ => if out_eqb str_eqb impl model then 0 else if is_panic impl then 3 else 1
-      end
+      if out_eqb str_eqb impl (omap renorm model) then 0 else if is_panic impl then 3 else 1
   | SliceRT pr l istr impl =>
       let isp := mk_print pr in
       let mstr := slice_string isp l in
@@ -222,7 +228,7 @@ Definition check (c : c15case) : N :=
       if is_panic impl then 3
       else match model with
            | Ok v => if pval_raw v then (if out_class_eqb impl model then 0 else 1)
-                     else if out_eqb pval_eqb impl model then 0 else 1
+                     else if out_eqb pval_eqb impl (Ok (pval_norm v)) then 0 else 1
            | _ => if out_eqb pval_eqb impl model then 0 else 1
            end
   | FloatDirect agrees => if agrees then 0 else 3
